@@ -14,7 +14,7 @@ pub fn props() -> Vec<Prop> {
         id: "C12",
         run: c12,
         tools: None,
-        rule: "every public Memfs method (all Op variants: creators, writers, readers, remove/move/copy/symlink, chmod/chown builders, queries, listings, entries) is called under catch_unwind with every string up to length 3 (quick) / 4 (thorough) over the 13-symbol hostile alphabet {/ . ~ $ { } : a e-acute euro emoji space backslash} (two-path methods: every ordered pair of strings up to length 2 / 3) from 3 prepared states, plus long '..' chains, 4 KiB names, seeded random Unicode, extreme modes (0, 0o7777, u32::MAX) and ids; read/write/append handles get extreme seek/read scripts. After every call that returned Err or panicked - and after every call that reported success and changed the state - a probe (mkfile + exists + remove of a fresh path, lock not poisoned, C03 walker) must succeed. A CPU/wall watchdog turns a call that does not return into a hang record, a counting allocator turns unbounded allocation into a blow-up record. The 21 PathExt helpers, sys::* path functions, StringExt, IteratorExt (extreme indices) and PeekableExt run over the same strings / all pairs. Run in the checked-arithmetic profile and again in a wrapping-arithmetic (release-like) profile. distinct_nontrivial = distinct (function, string class(es), outcome class) triples. Later additions: a second exhaustive alphabet of characters whose case mapping changes their UTF-8 length; a 70-deep prepared state with an empty directory at the bottom (deeper than the traversal's cap of 50 open directories); links whose recorded kind is stale; every single-path method and a set of follow-option calls on every prepared path.",
+        rule: "every public Memfs method (all Op variants: creators, writers, readers, remove/move/copy/symlink, chmod/chown builders, queries, listings, entries) is called under catch_unwind with every string up to length 3 (quick) / 4 (thorough) over the 13-symbol hostile alphabet {/ . ~ $ { } : a e-acute euro emoji space backslash} (two-path methods: every ordered pair of strings up to length 2 / 3) from 3 prepared states, plus long '..' chains, 4 KiB names, seeded random Unicode, extreme modes (0, 0o7777, u32::MAX) and ids; read/write/append handles get extreme seek/read scripts. After every call that returned Err or panicked - and after every call that reported success and changed the state - a probe (mkfile + exists + remove of a fresh path, lock not poisoned, C03 walker) must succeed. A CPU/wall watchdog turns a call that does not return into a hang record, a counting allocator turns unbounded allocation into a blow-up record. The 21 PathExt helpers, sys::* path functions, StringExt, IteratorExt (extreme indices) and PeekableExt run over the same strings / all pairs. Run in the checked-arithmetic profile and again in a wrapping-arithmetic (release-like) profile. distinct_nontrivial = distinct (function, string class(es), outcome class) triples. Later additions: a second exhaustive alphabet of characters whose case mapping changes their UTF-8 length; a 70-deep prepared state with an empty directory at the bottom (deeper than the traversal's cap of 50 open directories); links whose recorded kind is stale; links to nothing that point at each other and a link to itself; every single-path method and a set of follow-option calls on every prepared path.",
         assumptions: &["a hang is decided on CPU time burnt inside one call (20 s) or on 90 s without progress and without CPU use; anything else that stalls is inconclusive"],
         shards_quick: 8,
         shards_thorough: 16,
@@ -81,6 +81,13 @@ fn build_state(k: usize) -> Memfs {
         let _ = m.mkdir_p("/cdir/sub");
         let _ = m.symlink("/cdir/link", "/ch/mid");
         let _ = m.symlink("/cdir/sub/dlink", "/l");
+        // links that lead back to themselves without a directory in between: two links to nothing that point at each
+        // other (the first is made while the second does not exist yet) and a link to itself. Nothing can be listed
+        // behind them, but every snapshot of a branch that holds them has to get past them
+        let _ = m.mkdir_p("/cyc");
+        let _ = m.symlink("/cyc/l1", "/cyc/l2");
+        let _ = m.symlink("/cyc/l2", "/cyc/l1");
+        let _ = m.symlink("/cyc/self", "/cyc/self");
         let _ = m.mkfile("/sf");
         let _ = m.symlink("/stf", "/sf");
         let _ = m.remove("/sf");
@@ -469,7 +476,7 @@ fn c12(ctx: &Ctx, rep: &mut Report) {
     }
     // two-path methods on meaningful nestings
     if ctx.shard == 0 {
-        let hot = ["/", "/a", "/a/b", "/a/f", "/l", "/a/lf", "/a/b/up", "/a/b/x/y", "/zz", "", "..", "/a/..", "/a/b/..", "/stl", "/stf", "/st", "/cdir", "/cdir/link", "/ch"];
+        let hot = ["/", "/a", "/a/b", "/a/f", "/l", "/a/lf", "/a/b/up", "/a/b/x/y", "/zz", "", "..", "/a/..", "/a/b/..", "/stl", "/stf", "/st", "/cdir", "/cdir/link", "/ch", "/cyc", "/cyc/l1", "/cyc/self"];
         for a in hot {
             for k in 1..3 {
                 run_ops(k, &ops_one(a), &format!("prepared:{}", if a.starts_with("/st") { "stale-link" } else { "entry" }), rep);
